@@ -348,14 +348,23 @@ def rules_create_steps(run):
         if en is not None and isinstance(en, ast.Name):
             init = [v for st, v in q.assigned_value(F, en.id)]
             run.check(len(init) == 1 and q.unparse(init[0]) == '[%s.target]' % t, r, fi.short, 'entry path ends with the target', 'entry list must start as [target]', L)
-    # internal transitions
-    conts = [n for n in L.body if isinstance(n, ast.If) and any(isinstance(x, ast.Continue) for x in n.body)]
+    # internal transitions: the step built exactly under "the transition is internal" carries no state lists
+    def classify_i(op, l, r_, e):
+        if op == 'is' and l == t + '.target' and r_ == 'None':
+            return 'INTERNAL'
+        if op == 'truthy' and l == t + '.internal':
+            return 'INTERNAL'
+        if op == 'truthy' and l == t + '.target':
+            return ('INTERNAL', False)
+        return None
     good = False
-    for n in conts:
-        c = q.canon_atom(n.test)
-        if c and ((c[0] == 'is' and c[1] == t + '.target' and c[2] == 'None' and c[3]) or (c[0] == 'truthy' and c[1] == t + '.internal' and c[3])):
-            m = [x for x in q.calls(n) if dotted(x.func) == 'MicroStep']
-            good = len(m) == 1 and set(q.kwargs_of(m[0])) <= {'event', 'transition'} and obj_is(q.kwargs_of(m[0]).get('transition'), t)
+    for m in [x for x in q.calls(L) if dotted(x.func) == 'MicroStep']:
+        ba = q.BoolAbs(classify_i)
+        vs, sat = ba.table([(g[0], g[1], g[2]) for g in guards(m, stop=L)])
+        if set(vs) == {'INTERNAL'} and not q.table_equals(vs, sat, lambda v_: v_.get('INTERNAL', False)):
+            good = set(q.kwargs_of(m)) <= {'event', 'transition'} and len(m.args) == 0 and obj_is(q.kwargs_of(m).get('transition'), t)
+            if not good:
+                break
     run.check(good, r, fi.short, 'internal transitions exit and enter nothing', 'internal transition must yield a step with no state lists', L)
 
 
@@ -389,7 +398,7 @@ def rules_final(run):
                     at = guard_atoms(node)
                     run.check(isinstance(node.value, ast.Constant) and node.value.value is True and at == [('falsy', 'self._initialized', '')], r, f.short,
                               '_initialized set on the first computation only', 'must be set True exactly when not yet initialised', node)
-                    blk = node._parent.body
+                    blk = q.block_of(node)
                     ret = [s for s in blk if isinstance(s, ast.Return)]
                     good = len(ret) == 1 and isinstance(strip_cast(ret[0].value), ast.List) and len(strip_cast(ret[0].value).elts) == 1
                     if good:
